@@ -129,6 +129,15 @@ func c16OpString(a *An, opStr *ssa.Function) {
 	var rows []row
 	var probs []string
 	var builder ssa.Value
+	// builder writes, grouped: consecutive writes under one and the same condition form one token
+	type piece struct {
+		v     *Visit
+		konst string      // constant text
+		g     *ssa.Global // or: a field of a row of a constant table
+		field string
+	}
+	var groups [][]piece
+	lastKey := ""
 	for _, v := range w.Visits {
 		call, ok := v.Instr.(*ssa.Call)
 		if !ok || v.Ctx.Parent != nil {
@@ -139,20 +148,65 @@ func c16OpString(a *An, opStr *ssa.Function) {
 			continue
 		}
 		fn := fullName(cal)
-		if strings.HasPrefix(fn, "(*strings.Builder).Write") {
-			if builder == nil {
-				builder = call.Call.Args[0]
-			}
-			if fn != "(*strings.Builder).WriteString" {
-				probs = append(probs, "builder written by "+fn+" at "+a.P.instrPos(call))
-				continue
-			}
-			k, isK := call.Call.Args[1].(*ssa.Const)
-			if !isK || k.Value == nil || k.Value.Kind() != constant.String {
+		if !strings.HasPrefix(fn, "(*strings.Builder).Write") {
+			continue
+		}
+		if builder == nil {
+			builder = call.Call.Args[0]
+		}
+		pc := piece{v: v}
+		arg := call.Call.Args[1]
+		switch fn {
+		case "(*strings.Builder).WriteString":
+			if k, isK := arg.(*ssa.Const); isK && k.Value != nil && k.Value.Kind() == constant.String {
+				pc.konst = constant.StringVal(k.Value)
+			} else if g, f, isT := tableElem(a.P, v.Ctx.path(arg)); isT {
+				pc.g, pc.field = g, f
+			} else {
 				probs = append(probs, "non-constant token at "+a.P.instrPos(call))
 				continue
 			}
-			tok := constant.StringVal(k.Value)
+		case "(*strings.Builder).WriteByte", "(*strings.Builder).WriteRune":
+			k, isK := constUint(arg)
+			if !isK || k == 0 || k > 127 {
+				probs = append(probs, "non-constant byte written at "+a.P.instrPos(call))
+				continue
+			}
+			pc.konst = string(rune(k))
+		default:
+			probs = append(probs, "builder written by "+fn+" at "+a.P.instrPos(call))
+			continue
+		}
+		key := v.Cond.String()
+		if key == lastKey && len(groups) > 0 && groups[len(groups)-1][0].v.Instr.Block() == call.Block() {
+			groups[len(groups)-1] = append(groups[len(groups)-1], pc)
+		} else {
+			groups = append(groups, []piece{pc})
+		}
+		lastKey = key
+	}
+	for _, grp := range groups {
+		v := grp[0].v
+		pos := a.P.instrPos(v.Instr)
+		prefix := ""
+		var tabPiece *piece
+		bad := false
+		for i := range grp {
+			if grp[i].g != nil {
+				if tabPiece != nil || i != len(grp)-1 {
+					bad = true
+				}
+				tabPiece = &grp[i]
+			} else {
+				prefix += grp[i].konst
+			}
+		}
+		if bad {
+			probs = append(probs, "unrecognised token composition at "+pos)
+			continue
+		}
+		if tabPiece == nil {
+			tok := prefix
 			// guard: exactly one positive single-bit literal on the receiver
 			if len(v.Cond) != 1 || len(v.Cond[0]) != 1 {
 				probs = append(probs, sprintf("token %q is guarded by %s (expected one single-bit test of the receiver)", tok, stripIDs(v.Cond.String())))
@@ -163,8 +217,30 @@ func c16OpString(a *An, opStr *ssa.Function) {
 					probs = append(probs, sprintf("token %q is guarded by %s", tok, stripIDs(l.String())))
 					continue
 				}
-				rows = append(rows, row{l.A.Bits, tok, a.P.instrPos(call)})
+				rows = append(rows, row{l.A.Bits, tok, pos})
 			}
+			continue
+		}
+		// token = constant prefix + name of a row of a constant table, under a test of the receiver against that row's bit
+		g := tabPiece.g
+		tab, okT := staticTable(a.P, g)
+		subj, opF, okG := tableGuard(a.P, v.Cond, g)
+		if !okT || !okG || subj != "recv" {
+			probs = append(probs, sprintf("table %s is not an immutable constant table tested against the receiver (%v, %v, subject %q)", g.Name(), okT, okG, subj))
+			continue
+		}
+		for _, trow := range tab {
+			bit, ok1 := constU(trow[opF])
+			nm := trow[tabPiece.field]
+			if !ok1 || nm == nil || nm.Value == nil || nm.Value.Kind() != constant.String {
+				probs = append(probs, "malformed row in table "+g.Name())
+				continue
+			}
+			if popcount(bit) != 1 {
+				probs = append(probs, sprintf("row %q of table %s tests several bits at once (%#x)", constant.StringVal(nm.Value), g.Name(), bit))
+				continue
+			}
+			rows = append(rows, row{bit, prefix + constant.StringVal(nm.Value), pos + " (table " + g.Name() + ")"})
 		}
 	}
 	// data-driven form: names appended from a constant package table under `o & row.op != 0`, joined with "|"
